@@ -231,6 +231,45 @@ def cmd_run(slot, nslots, every=1, procs=4):
     shutil.rmtree(root, ignore_errors=True)
 
 
+def cmd_recheck(slot, nslots, procs=3):
+    """Survivors of the per-file check lists are run against every OTHER check that executes the mutated line
+    (sub-sampled, stop at first violation).  Results: /verif/mutation/recheck_<slot>.jsonl"""
+    import glob
+    rs = []
+    for f in sorted(glob.glob("/verif/mutation/results_*.jsonl")):
+        rs += [json.loads(l) for l in open(f)]
+    surv = [r for r in rs if r["status"] == "survived"]
+    surv.sort(key=lambda r: (r["file"], r["line"], r["old"], r["new"]))
+    cov = load_cov()
+    root = "%s/re%d" % (MUT, slot)
+    repo = root + "/repo"
+    shutil.rmtree(root, ignore_errors=True)
+    os.makedirs(repo)
+    shutil.copytree(REPO + "/coxeter", repo + "/coxeter", ignore=shutil.ignore_patterns("__pycache__"))
+    ms = {(m["file"], m["line"], m["kind"], m["old"], m["new"]): m for m in json.load(open(MUT + "/mutants.json"))}
+    resf = "/verif/mutation/recheck_%d.jsonl" % slot
+    for k, r in enumerate(surv):
+        if k % nslots != slot:
+            continue
+        m = ms.get((r["file"], r["line"], r["kind"], r["old"], r["new"]))
+        if m is None:
+            continue
+        extra = [c for c in sorted(set(cov.get((r["file"], r["line"]), [])), key=lambda c: WALL[c]) if c not in r["checks"]]
+        path = os.path.join(repo, m["file"])
+        orig = open(os.path.join(REPO, m["file"]), "rb").read()
+        open(path, "wb").write(orig[: m["a"]] + m["new"].encode() + orig[m["b"]:])
+        t0 = time.time()
+        try:
+            by, msg = run_checks(repo, root + "/out", extra, 4, procs)
+        finally:
+            open(path, "wb").write(orig)
+        out = {k2: r[k2] for k2 in ("file", "line", "kind", "old", "new")}
+        out.update({"extra_checks": extra, "status": "killed" if by else "survived", "by": by, "msg": msg, "wall": round(time.time() - t0, 1)})
+        with open(resf, "a") as f:
+            f.write(json.dumps(out) + "\n")
+    shutil.rmtree(root, ignore_errors=True)
+
+
 def cmd_report():
     import collections, glob
     rs = []
@@ -240,8 +279,18 @@ def cmd_report():
     print(len(rs), dict(c))
     by = collections.Counter(r["by"] for r in rs if r["status"] == "killed")
     print("killed by:", dict(by))
+    rk = {}
+    for f in sorted(glob.glob("/verif/mutation/recheck_*.jsonl")):
+        for l in open(f):
+            x = json.loads(l)
+            rk[(x["file"], x["line"], x["kind"], x["old"], x["new"])] = x
+    late = [x for x in rk.values() if x["status"] == "killed"]
+    print("survivors of the per-file lists killed by another covering check:", len(late), dict(collections.Counter(x["by"] for x in late)))
     src_cache = {}
     for r in sorted(rs, key=lambda r: (r["file"], r["line"])):
+        x = rk.get((r["file"], r["line"], r["kind"], r["old"], r["new"]))
+        if r["status"] == "survived" and x is not None and x["status"] == "killed":
+            continue
         if r["status"] == "survived":
             s = src_cache.setdefault(r["file"], open(os.path.join(REPO, r["file"])).read().split("\n"))
             print("SURVIVED #%d %s:%d [%s] %r -> %r   | %s" % (r["id"], r["file"], r["line"], r["kind"], r["old"][:40], r["new"][:40], s[r["line"] - 1].strip()[:110]))
@@ -253,5 +302,7 @@ if __name__ == "__main__":
         cmd_gen()
     elif a == "run":
         cmd_run(int(sys.argv[2]), int(sys.argv[3]), int(sys.argv[4]) if len(sys.argv) > 4 else 1, int(sys.argv[5]) if len(sys.argv) > 5 else 4)
+    elif a == "recheck":
+        cmd_recheck(int(sys.argv[2]), int(sys.argv[3]), int(sys.argv[4]) if len(sys.argv) > 4 else 3)
     else:
         cmd_report()
